@@ -6,7 +6,7 @@
 From Coq Require Import Lia.
 From HpoV Require Import Gen.Consts Model.Base Model.Group Model.Onto Model.Query Model.Script Model.Binary Model.Text Model.SubOnt
   Proofs.BaseP Proofs.ClosureP Proofs.AcyclicP Proofs.DistP Proofs.QgoodP Proofs.RoundTripP Proofs.AnnotP Proofs.BuilderAnnotP
-  Proofs.BuilderICP Proofs.ReloadP Proofs.SubAnnotP Proofs.JaxP Proofs.RoundTripSrcP Proofs.DecodeAnyP Proofs.JaxDescribesP Proofs.WalkP Proofs.WalkAllP Proofs.SectionP Proofs.C04R Proofs.C04B
+  Proofs.BuilderICP Proofs.ReloadP Proofs.SubAnnotP Proofs.JaxP Proofs.RoundTripSrcP Proofs.DecodeAnyP Proofs.JaxDescribesP Proofs.WalkP Proofs.WalkAllP Proofs.SectionP Proofs.C04R Proofs.C04B Proofs.C16M
   Model.Dump Model.Similarity.
 From Coq Require Import Permutation Reals.
 
@@ -71,3 +71,19 @@ Proof. intros C. destruct (constructed_wellformed icf o C) as (_ & _ & A & _ & N
 
 Theorem constructed_ic icf o : constructed icf o -> ic_ok icf o.
 Proof. intros C. destruct (constructed_wellformed icf o C) as (_ & _ & _ & Ic & _). exact Ic. Qed.
+
+(* C16 across construction paths: two constructed ontologies — whichever constructors produced them —
+   that state the same direct facts agree, term by term, on everything derived *)
+Theorem constructed_same_facts_agree icf o1 o2 t1 t2 : constructed icf o1 -> constructed icf o2 ->
+  C16M.same_facts o1 o2 ->
+  In t1 (ar_terms (o_arena o1)) -> In t2 (ar_terms (o_arena o2)) -> t_id t2 = t_id t1 ->
+  t_parents t2 = t_parents t1 /\ t_children t2 = t_children t1 /\ t_allp t2 = t_allp t1 /\
+  (forall k, t_annots k t2 = t_annots k t1) /\ t_ic t2 = t_ic t1.
+Proof.
+  intros C1 C2. destruct (constructed_wellformed icf o1 C1) as (S1 & _ & A1 & I1 & N1 & D1).
+  destruct (constructed_wellformed icf o2 C2) as (S2 & _ & A2 & I2 & N2 & D2).
+  apply (C16M.derived_data_function_of_facts icf o1 o2 t1 t2 S1 S2 A1 A2 I1 I2 N1 N2 D1 D2).
+Qed.
+
+Theorem constructed_qgood icf o : constructed icf o -> qgood o.
+Proof. intros C. destruct (constructed_wellformed icf o C) as (S & _). apply (so_q o S). Qed.
